@@ -102,7 +102,40 @@ def _worker(args):
                 time.time() - t0)
 
 
-def pmap(fn, items, procs=None, chunksize=1):
+def run_forked(fn, *args):
+    """run fn(*args) in a child forked from this process right now and return
+    its (picklable) result; the child inherits exactly the current state and
+    leaves nothing behind"""
+    import pickle
+    r, w = os.pipe()
+    pid = os.fork()
+    if pid == 0:
+        code = 0
+        try:
+            os.close(r)
+            try:
+                payload = pickle.dumps(('ok', big_frame(fn, *args)))
+            except BaseException as e:  # noqa
+                payload = pickle.dumps(('err', '%s: %s\n%s' % (type(e).__name__, e, traceback.format_exc())))
+            with os.fdopen(w, 'wb') as f:
+                f.write(payload)
+        except BaseException:  # noqa
+            code = 1
+        finally:
+            os._exit(code)
+    os.close(w)
+    with os.fdopen(r, 'rb') as f:
+        data = f.read()
+    os.waitpid(pid, 0)
+    if not data:
+        raise RuntimeError('forked child died without a result')
+    st, val = pickle.loads(data)
+    if st != 'ok':
+        raise RuntimeError('forked child failed: ' + val)
+    return val
+
+
+def pmap(fn, items, procs=None, chunksize=1, fresh_process_per_item=False):
     """ordered parallel map over fork()ed workers; fn must be a module-level
     function. Returns list of ('ok', result, secs) | ('err', text, secs)."""
     items = list(items)
@@ -111,7 +144,9 @@ def pmap(fn, items, procs=None, chunksize=1):
     if procs <= 1 or len(items) <= 1:
         return [_worker((fn, it)) for it in items]
     ctx = multiprocessing.get_context('fork')
-    with ctx.Pool(min(procs, len(items))) as pool:
+    # fresh_process_per_item: every item runs in a process forked from this
+    # one just for it (no state left behind by earlier items)
+    with ctx.Pool(min(procs, len(items)), maxtasksperchild=1 if fresh_process_per_item else None) as pool:
         return pool.map(_worker, [(fn, it) for it in items], chunksize)
 
 
